@@ -8,7 +8,47 @@ import SophiaProofs.Props.C02
 
 namespace SophiaProofs.HeapP
 open SophiaModel SophiaModel.Term SophiaModel.Store SophiaModel.Heap
-open SophiaProofs.C02 (termEq_refl)
+open SophiaProofs.C02 (termEq_refl termEq_symm)
+
+/-- element-wise relation between the original's and the clone's `i2t` (same length, position by position) -/
+def Pointwise {α β : Type} (R : α → β → Prop) (l : List α) (l' : List β) : Prop :=
+  l'.length = l.length ∧ ∀ (i : Nat) (a : α) (b : β), l[i]? = some a → l'[i]? = some b → R a b
+
+theorem Pointwise.nil {α β : Type} (R : α → β → Prop) : Pointwise R [] [] := ⟨rfl, by simp⟩
+
+theorem Pointwise.cons {α β : Type} {R : α → β → Prop} {a : α} {b : β} {l : List α} {l' : List β}
+    (hab : R a b) (hl : Pointwise R l l') : Pointwise R (a :: l) (b :: l') := by
+  refine ⟨by simp [hl.1], ?_⟩
+  intro i x y hx hy
+  cases i with
+  | zero => simp at hx hy; subst hx hy; exact hab
+  | succ i => simp at hx hy; exact hl.2 i x y hx hy
+
+theorem Pointwise.imp {α β : Type} {R S : α → β → Prop} {l : List α} {l' : List β}
+    (hl : Pointwise R l l') (hrs : ∀ a ∈ l, ∀ b, R a b → S a b) : Pointwise S l l' :=
+  ⟨hl.1, fun i a b ha hb => hrs a (List.mem_of_getElem? ha) b (hl.2 i a b ha hb)⟩
+
+theorem Pointwise.snoc {α β : Type} {R : α → β → Prop} {l : List α} {l' : List β} {a : α} {b : β}
+    (p : Pointwise R l l') (r : R a b) : Pointwise R (l ++ [a]) (l' ++ [b]) := by
+  refine ⟨by simp [p.1], fun i x y hx hy => ?_⟩
+  by_cases hi : i < l.length
+  · have hi' : i < l'.length := by have := p.1; omega
+    rw [List.getElem?_append_left hi] at hx
+    rw [List.getElem?_append_left hi'] at hy
+    exact p.2 i x y hx hy
+  · have hge : l.length ≤ i := Nat.le_of_not_lt hi
+    have hge' : l'.length ≤ i := by have := p.1; omega
+    rw [List.getElem?_append_right hge] at hx
+    rw [List.getElem?_append_right hge'] at hy
+    have hlen : i - l.length = i - l'.length := by have := p.1; omega
+    rw [hlen] at hx
+    cases hk : i - l'.length with
+    | zero =>
+      rw [hk] at hx hy
+      simp only [List.getElem?_cons_zero, Option.some.injEq] at hx hy
+      subst hx; subst hy; exact r
+    | succ k => rw [hk] at hx; simp at hx
+
 
 /-- every borrowed (non-empty) string of every `i2t` entry points into a buffer owned by a key
 of the SAME index -/
@@ -17,6 +57,52 @@ def SelfContained (ix : TIndex) : Prop :=
 
 theorem selfContained_iff (ix : TIndex) : ix.selfContained = true ↔ SelfContained ix := by
   simp [TIndex.selfContained, SelfContained, List.all_eq_true, or_assoc]
+
+theorem Pointwise.imp2 {α β : Type} {R S : α → β → Prop} {l : List α} {l' : List β}
+    (hl : Pointwise R l l') (hrs : ∀ a ∈ l, ∀ b ∈ l', R a b → S a b) : Pointwise S l l' :=
+  ⟨hl.1, fun i a b ha hb => hrs a (List.mem_of_getElem? ha) b (List.mem_of_getElem? hb) (hl.2 i a b ha hb)⟩
+
+/-- key `e` and entry `t` belong together: same shape, every string the entry borrows lies in a buffer THIS
+key owns (what the hook `verif_audit` checks), and both read the same term -/
+def Tied (h : Heap) (e : TermRef × Nat) (t : TermRef) : Prop :=
+  e.1.sameShape t = true ∧ insideKey e.1 t = true ∧ ∃ x, readTerm? h e.1 = some x ∧ readTerm? h t = some x
+
+/-- no two keys read `Term::eq` terms (the `HashMap` has one entry per term: C01's I2, in the heap model) -/
+abbrev KeysUnique (h : Heap) (ks : List (TermRef × Nat)) : Prop :=
+  ∀ (i j : Nat) (ei ej : TermRef × Nat) (x y : Term), ks[i]? = some ei → ks[j]? = some ej → readTerm? h ei.1 = some x → readTerm? h ej.1 = some y →
+    termEq x y = true → i = j
+
+theorem KeysUnique.of_reads {h h' : Heap} {ks : List (TermRef × Nat)} (u : KeysUnique h ks)
+    (hr : ∀ e ∈ ks, readTerm? h' e.1 = readTerm? h e.1) : KeysUnique h' ks :=
+  fun i j ei ej x y hi hj hx hy =>
+    u i j ei ej x y hi hj (by rw [← hr ei (List.mem_of_getElem? hi)]; exact hx)
+      (by rw [← hr ej (List.mem_of_getElem? hj)]; exact hy)
+
+theorem getElem?_snoc_cases {α : Type} {l : List α} {a x : α} {i : Nat} (h : (l ++ [a])[i]? = some x) :
+    (i < l.length ∧ l[i]? = some x) ∨ (i = l.length ∧ x = a) := by
+  by_cases hi : i < l.length
+  · rw [List.getElem?_append_left hi] at h; exact Or.inl ⟨hi, h⟩
+  · have hge : l.length ≤ i := Nat.le_of_not_lt hi
+    rw [List.getElem?_append_right hge] at h
+    cases hk : i - l.length with
+    | zero =>
+      rw [hk] at h
+      simp only [List.getElem?_cons_zero, Option.some.injEq] at h
+      exact Or.inr ⟨by omega, h.symm⟩
+    | succ k => rw [hk] at h; simp at h
+
+/-- a new key whose content no old key is `Term::eq` to keeps the keys unique -/
+theorem KeysUnique.snoc {h : Heap} {ks : List (TermRef × Nat)} {k : TermRef × Nat} {x0 : Term}
+    (u : KeysUnique h ks) (hk : readTerm? h k.1 = some x0)
+    (hnew : ∀ e ∈ ks, ∀ x, readTerm? h e.1 = some x → termEq x x0 = false) : KeysUnique h (ks ++ [k]) := by
+  intro i j ei ej x y hi hj hx hy he
+  rcases getElem?_snoc_cases hi with ⟨_, hi'⟩ | ⟨hi', rfl⟩ <;> rcases getElem?_snoc_cases hj with ⟨_, hj'⟩ | ⟨hj', rfl⟩
+  · exact u i j ei ej x y hi' hj' hx hy he
+  · rw [hk] at hy; cases hy
+    rw [hnew ei (List.mem_of_getElem? hi') x hx] at he; cases he
+  · rw [hk] at hx; cases hx
+    rw [termEq_symm, hnew ej (List.mem_of_getElem? hj') y hy] at he; cases he
+  · omega
 
 structure IxInv (h : Heap) (ix : TIndex) : Prop where
   /-- the keys of `t2i` own all their strings -/
@@ -29,10 +115,17 @@ structure IxInv (h : Heap) (ix : TIndex) : Prop where
   keysRead : ∀ e ∈ ix.t2i, ∃ x, readTerm? h e.1 = some x
   /-- every entry of `i2t` reads as some key of `t2i` -/
   sync : ∀ t ∈ ix.i2t, ∃ e ∈ ix.t2i, ∃ x, readTerm? h e.1 = some x ∧ readTerm? h t = some x
+  /-- POSITIONALLY: the `j`-th key and the `j`-th entry belong together -/
+  pair : Pointwise (Tied h) ix.t2i ix.i2t
+  /-- no two keys are `Term::eq` -/
+  uniq : KeysUnique h ix.t2i
+  /-- the `j`-th key is mapped to `j` -/
+  keys : ix.t2i.map (·.2) = List.range ix.i2t.length
 
 theorem IxInv.empty (h : Heap) : IxInv h {} :=
   ⟨by simp, by simp [SelfContained], by simp [TIndex.owned, TIndex.keyIds, TIndex.entryIds],
-   by simp [TIndex.owned, TIndex.keyIds, TIndex.entryIds], by simp, by simp⟩
+   by simp [TIndex.owned, TIndex.keyIds, TIndex.entryIds], by simp, by simp, Pointwise.nil _,
+   fun i j ei ej _ _ hi => by simp at hi, rfl⟩
 
 theorem mem_keyIds {ix : TIndex} {e : TermRef × Nat} {a : Nat} (he : e ∈ ix.t2i) (ha : a ∈ e.1.ownedIds) :
     a ∈ ix.keyIds := List.mem_flatMap.2 ⟨e, he, ha⟩
@@ -76,6 +169,11 @@ theorem IxInv.frame {h h' : Heap} {ix : TIndex} (inv : IxInv h ix) (hs : Same h 
     refine ⟨e, he, x, ?_, ?_⟩
     · rw [readTerm?_same (h := h) (fun r hr => Or.inr (hs _ (inv.key_ref he hr)))]; exact h1
     · rw [readTerm?_same (h := h) (fun r hr => (inv.entry_ref ht hr).imp id (hs _))]; exact h2
+  pair := inv.pair.imp2 (fun e he t ht ⟨s1, s2, x, h1, h2⟩ => ⟨s1, s2, x,
+    by rw [readTerm?_same (h := h) (fun r hr => Or.inr (hs _ (inv.key_ref he hr)))]; exact h1,
+    by rw [readTerm?_same (h := h) (fun r hr => (inv.entry_ref ht hr).imp id (hs _))]; exact h2⟩)
+  uniq := inv.uniq.of_reads (fun e he => readTerm?_same (fun r hr => Or.inr (hs _ (inv.key_ref he hr))))
+  keys := inv.keys
 
 theorem IxInv.ext {h h' : Heap} {ix : TIndex} (inv : IxInv h ix) (e : Ext h h') : IxInv h' ix :=
   inv.frame (Same.of_ext e (fun _ ha => inv.lt ha))
@@ -126,12 +224,12 @@ theorem nodup_two_blocks {A B K T : List Nat} {n m : Nat} (hnm : n ≤ m) (hab :
     · have := hK a ha; have := hlt b (List.mem_append_right _ hb); omega
     · have := hK a ha; have := hT b hb; omega
 
-theorem ensureIndex_step {h : Heap} {ix : TIndex} (max : Nat) (t : Term) (inv : IxInv h ix) :
-    IxStep h (ix.ensureIndex max h t).1 ix (ix.ensureIndex max h t).2.1 := by
-  have nk := allocTerm_spec h t
+theorem ensureIndex_step {h : Heap} {ix : TIndex} (own : Bool) (max : Nat) (t : Term) (inv : IxInv h ix) :
+    IxStep h (ix.ensureIndex own max h t).1 ix (ix.ensureIndex own max h t).2.1 := by
+  have nk := allocTerm_spec own h t
   -- dropping the fresh key again
-  have dropKey : IxStep h ((allocTerm h t).1.freeAll (allocTerm h t).2.ownedIds) ix ix := by
-    have e : Ext h ((allocTerm h t).1.freeAll (allocTerm h t).2.ownedIds) :=
+  have dropKey : IxStep h ((allocTerm own h t).1.freeAll (allocTerm own h t).2.ownedIds) ix ix := by
+    have e : Ext h ((allocTerm own h t).1.freeAll (allocTerm own h t).2.ownedIds) :=
       freeAll_ext nk.fresh.ext (fun a ha => (nk.fresh.mem.1 ha).1)
     exact ⟨e, by rw [freeAll_ub nk.fresh.nodup (fun a ha => nk.fresh.live_mem ha), nk.ub], inv.ext e,
       fun _ ha => Or.inl ha⟩
@@ -139,14 +237,15 @@ theorem ensureIndex_step {h : Heap} {ix : TIndex} (max : Nat) (t : Term) (inv : 
   simp only
   split
   · exact dropKey
-  · split
+  · rename_i hnone
+    split
     · exact dropKey
     · -- a new entry: key `k`, `i2t` gets `as_simple(k)`
       have bt := asSimple_spec nk.owned nk.content
-      have e2 : Ext h (asSimple (allocTerm h t).1 (allocTerm h t).2).1 := nk.fresh.ext.trans bt.fresh.ext
+      have e2 : Ext h (asSimple (allocTerm own h t).1 (allocTerm own h t).2).1 := nk.fresh.ext.trans bt.fresh.ext
       have inv2 := inv.ext e2
       refine ⟨e2, by rw [bt.ub, nk.ub], ?_, ?_⟩
-      · refine ⟨?_, ?_, ?_, ?_, ?_, ?_⟩
+      · refine ⟨?_, ?_, ?_, ?_, ?_, ?_, ?_, ?_, ?_⟩
         · intro e he
           simp only [List.mem_append, List.mem_singleton] at he
           rcases he with he | rfl
@@ -164,7 +263,7 @@ theorem ensureIndex_step {h : Heap} {ix : TIndex} (max : Nat) (t : Term) (inv : 
             · exact Or.inr (Or.inr (by simp [TIndex.keyIds, List.flatMap_append, h1]))
         · simp only [TIndex.owned, TIndex.keyIds, TIndex.entryIds, List.flatMap_append, List.flatMap_cons,
             List.flatMap_nil, List.append_nil]
-          exact nodup_two_blocks (n := h.cells.size) (m := (allocTerm h t).1.cells.size) nk.fresh.ext.1 inv.nodup nk.fresh.nodup
+          exact nodup_two_blocks (n := h.cells.size) (m := (allocTerm own h t).1.cells.size) nk.fresh.ext.1 inv.nodup nk.fresh.nodup
             bt.fresh.nodup (fun x hx => inv.lt hx) (fun x hx => nk.fresh.mem.1 hx)
             (fun x hx => (bt.fresh.mem.1 hx).1)
         · intro a ha
@@ -187,6 +286,21 @@ theorem ensureIndex_step {h : Heap} {ix : TIndex} (max : Nat) (t : Term) (inv : 
             exact ⟨e, List.mem_append_left _ he, x, h1, h2⟩
           · exact ⟨_, List.mem_append_right _ (List.mem_singleton.2 rfl), t,
               readTerm?_ext bt.fresh.ext nk.content, bt.content⟩
+        · exact Pointwise.snoc inv2.pair ⟨(asSimple_paired _ nk.owned).1, (asSimple_paired _ nk.owned).2, t,
+            readTerm?_ext bt.fresh.ext nk.content, bt.content⟩
+        · refine KeysUnique.snoc (x0 := t) inv2.uniq (readTerm?_ext bt.fresh.ext nk.content) ?_
+          intro e he x hx
+          -- `get_index` found no key `Term::eq` to `t`
+          have hf : ix.t2i.find? (fun e => termEq (keyTerm (allocTerm own h t).1 e.1) t) = none := by
+            simpa [TIndex.getIndex] using hnone
+          have hne := List.find?_eq_none.1 hf e he
+          obtain ⟨z, hz⟩ := inv.keysRead e he
+          have hz1 := readTerm?_ext nk.fresh.ext hz
+          have hz2 := readTerm?_ext bt.fresh.ext hz1
+          rw [hz2] at hx; cases hx
+          simpa [keyTerm, hz1] using hne
+        · simp only [List.map_append, List.map_cons, List.map_nil, List.length_append, List.length_cons,
+            List.length_nil, Nat.zero_add, List.range_succ, inv.keys]
       · intro a ha
         simp only [TIndex.owned, TIndex.keyIds, TIndex.entryIds, List.flatMap_append, List.flatMap_cons,
           List.flatMap_nil, List.append_nil, List.mem_append] at ha
@@ -196,9 +310,9 @@ theorem ensureIndex_step {h : Heap} {ix : TIndex} (max : Nat) (t : Term) (inv : 
         · exact Or.inl (List.mem_append_right _ ha)
         · exact Or.inr (Nat.le_trans nk.fresh.ext.1 (bt.fresh.mem.1 ha).1)
 
-theorem ensureAllH_step (max : Nat) (names : List GName) (cs : List Nat) {h : Heap} {ix : TIndex}
+theorem ensureAllH_step (own : Bool) (max : Nat) (names : List GName) (cs : List Nat) {h : Heap} {ix : TIndex}
     (acc : List (Nat × Nat)) (inv : IxInv h ix) :
-    IxStep h (ensureAllH max names cs h ix acc).1 ix (ensureAllH max names cs h ix acc).2.1 := by
+    IxStep h (ensureAllH own max names cs h ix acc).1 ix (ensureAllH own max names cs h ix acc).2.1 := by
   induction cs generalizing h ix acc with
   | nil => exact IxStep.refl inv
   | cons c cs ih =>
@@ -206,16 +320,16 @@ theorem ensureAllH_step (max : Nat) (names : List GName) (cs : List Nat) {h : He
     split
     · exact ih _ inv
     · next t _ =>
-      have st := ensureIndex_step max t inv
+      have st := ensureIndex_step own max t inv
       split
       · next h' ix' heq => rw [heq] at st; exact st
       · next h' ix' i heq =>
         rw [heq] at st
         exact st.trans (ih _ st.inv)
 
-theorem insert_ix (h : Heap) (s : HStore) (q : Quad) :
-    (s.insert h q).1 = (ensureAllH s.max (quadNames s.shape.n q) s.shape.lookupOrder h s.ix []).1 ∧
-    (s.insert h q).2.1.ix = (ensureAllH s.max (quadNames s.shape.n q) s.shape.lookupOrder h s.ix []).2.1 := by
+theorem insert_ix (own : Bool) (h : Heap) (s : HStore) (q : Quad) :
+    (s.insert own h q).1 = (ensureAllH own s.max (quadNames s.shape.n q) s.shape.lookupOrder h s.ix []).1 ∧
+    (s.insert own h q).2.1.ix = (ensureAllH own s.max (quadNames s.shape.n q) s.shape.lookupOrder h s.ix []).2.1 := by
   unfold HStore.insert
   simp only
   split
@@ -226,10 +340,10 @@ theorem insert_ix (h : Heap) (s : HStore) (q : Quad) :
     · split <;> simp
     · simp
 
-theorem insert_step {h : Heap} {s : HStore} (q : Quad) (inv : IxInv h s.ix) :
-    IxStep h (s.insert h q).1 s.ix (s.insert h q).2.1.ix := by
-  rw [(insert_ix h s q).1, (insert_ix h s q).2]
-  exact ensureAllH_step _ _ _ _ inv
+theorem insert_step {h : Heap} {s : HStore} (own : Bool) (q : Quad) (inv : IxInv h s.ix) :
+    IxStep h (s.insert own h q).1 s.ix (s.insert own h q).2.1.ix := by
+  rw [(insert_ix own h s q).1, (insert_ix own h s q).2]
+  exact ensureAllH_step _ _ _ _ _ inv
 
 /-! ### the manual `Clone` -/
 
@@ -275,24 +389,6 @@ theorem cloneKeys_spec {h : Heap} {ks : List (TermRef × Nat)} (ho : ∀ e ∈ k
       rcases he' with rfl | he'
       · exact ⟨x, readTerm?_ext r.fresh.ext nk.content⟩
       · exact r.bwd e' he'
-
-/-- element-wise relation between the original's and the clone's `i2t` (same length, position by position) -/
-def Pointwise {α β : Type} (R : α → β → Prop) (l : List α) (l' : List β) : Prop :=
-  l'.length = l.length ∧ ∀ (i : Nat) (a : α) (b : β), l[i]? = some a → l'[i]? = some b → R a b
-
-theorem Pointwise.nil {α β : Type} (R : α → β → Prop) : Pointwise R [] [] := ⟨rfl, by simp⟩
-
-theorem Pointwise.cons {α β : Type} {R : α → β → Prop} {a : α} {b : β} {l : List α} {l' : List β}
-    (hab : R a b) (hl : Pointwise R l l') : Pointwise R (a :: l) (b :: l') := by
-  refine ⟨by simp [hl.1], ?_⟩
-  intro i x y hx hy
-  cases i with
-  | zero => simp at hx hy; subst hx hy; exact hab
-  | succ i => simp at hx hy; exact hl.2 i x y hx hy
-
-theorem Pointwise.imp {α β : Type} {R S : α → β → Prop} {l : List α} {l' : List β}
-    (hl : Pointwise R l l') (hrs : ∀ a ∈ l, ∀ b, R a b → S a b) : Pointwise S l l' :=
-  ⟨hl.1, fun i a b ha hb => hrs a (List.mem_of_getElem? ha) b (hl.2 i a b ha hb)⟩
 
 /-- the clone's entry reads `Term::eq`-equal to the original's, both read in the same heap -/
 def SameRead (h : Heap) (t t' : TermRef) : Prop :=
@@ -348,6 +444,97 @@ theorem rebuildI2t_spec {h : Heap} {ks : List (TermRef × Nat)} {ts : List TermR
         · exact ⟨e, hem, y, readTerm?_ext (e1.trans rb.fresh.ext) hy, readTerm?_ext rb.fresh.ext bt.content⟩
         · exact rb.sync t' ht'
 
+/-- `HashMap::clone`, position by position: the `j`-th new key has the `j`-th old key's index and content -/
+theorem cloneKeys_pos {h : Heap} {ks : List (TermRef × Nat)} (ho : ∀ e ∈ ks, AllOwned e.1.refs)
+    (hr : ∀ e ∈ ks, ∃ x, readTerm? h e.1 = some x) :
+    Pointwise (fun e e' => e'.2 = e.2 ∧ ∃ x, readTerm? h e.1 = some x ∧ readTerm? (cloneKeys h ks).1 e'.1 = some x)
+      ks (cloneKeys h ks).2 := by
+  induction ks generalizing h with
+  | nil => exact Pointwise.nil _
+  | cons e ks ih =>
+    obtain ⟨k, i⟩ := e
+    obtain ⟨x, hx⟩ := hr (k, i) (List.mem_cons_self ..)
+    have nk : NewTerm h (cloneTermRef h k).1 (cloneTermRef h k).2 x := by
+      rw [cloneTermRef_eq_copyTerm (ho (k, i) (List.mem_cons_self ..))]; exact copyTerm_spec hx
+    have ho' : ∀ e ∈ ks, AllOwned e.1.refs := fun e he => ho e (List.mem_cons_of_mem _ he)
+    have hr' : ∀ e ∈ ks, ∃ x, readTerm? (cloneTermRef h k).1 e.1 = some x := fun e he => by
+      obtain ⟨y, hy⟩ := hr e (List.mem_cons_of_mem _ he)
+      exact ⟨y, readTerm?_ext nk.fresh.ext hy⟩
+    have r := cloneKeys_spec ho' hr'
+    have p := ih (h := (cloneTermRef h k).1) ho' hr'
+    simp only [cloneKeys]
+    refine Pointwise.cons ⟨rfl, x, hx, readTerm?_ext r.fresh.ext nk.content⟩ (p.imp ?_)
+    intro e he e' ⟨h1, y, hy1, hy2⟩
+    obtain ⟨z, hz⟩ := hr e (List.mem_cons_of_mem _ he)
+    have := readTerm?_ext nk.fresh.ext hz
+    rw [hy1] at this; cases this
+    exact ⟨h1, y, hz, hy2⟩
+
+/-- the manual impl's rebuild, position by position: when entry `m` reads as the key `ksub[m]` of the new map
+and the new map's keys are unique, the lookup finds exactly THAT key, so the new entry `m` is `as_simple` of it:
+it has its shape, borrows only from it, and reads the same term -/
+theorem rebuildI2t_pos {h : Heap} {ks ksub : List (TermRef × Nat)} {ts : List TermRef}
+    (hk : ∀ e ∈ ks, AllOwned e.1.refs ∧ ∃ x, readTerm? h e.1 = some x)
+    (hu : ∀ e1 ∈ ks, ∀ e2 ∈ ks, ∀ x y, readTerm? h e1.1 = some x → readTerm? h e2.1 = some y → termEq x y = true → e1 = e2)
+    (hp : Pointwise (fun e t => e ∈ ks ∧ ∃ x, readTerm? h e.1 = some x ∧ readTerm? h t = some x) ksub ts) :
+    Pointwise (Tied (rebuildI2t ks h ts).1) ksub (rebuildI2t ks h ts).2.1 := by
+  induction ts generalizing h ksub with
+  | nil =>
+    have : ksub = [] := by have := hp.1; simpa using this.symm
+    subst this; exact Pointwise.nil _
+  | cons t ts ih =>
+    cases ksub with
+    | nil => have := hp.1; simp at this
+    | cons e0 ksub =>
+      obtain ⟨he0, x, hx0, hxt⟩ := hp.2 0 e0 t rfl rfl
+      have hs : ∀ t' ∈ t :: ts, ∃ e ∈ ks, ∃ x, readTerm? h e.1 = some x ∧ readTerm? h t' = some x := by
+        intro t' ht'
+        obtain ⟨m, hm, rfl⟩ := List.getElem_of_mem ht'
+        have hm' : m < (e0 :: ksub).length := by have := hp.1; omega
+        obtain ⟨hem, z, h1, h2⟩ := hp.2 m _ _ (List.getElem?_eq_getElem hm') (List.getElem?_eq_getElem hm)
+        exact ⟨_, hem, z, h1, h2⟩
+      have full := (rebuildI2t_spec hk hs).2
+      unfold rebuildI2t at full ⊢
+      simp only [readTermU_of_read hxt] at full ⊢
+      cases hf : ks.find? (fun e => termEq (keyTerm h e.1) x) with
+      | none =>
+        exfalso
+        have := List.find?_eq_none.1 hf e0 he0
+        simp [keyTerm, hx0, termEq_refl] at this
+      | some e =>
+        have hem : e ∈ ks := List.mem_of_find?_eq_some hf
+        have hpred : termEq (keyTerm h e.1) x = true := by simpa using List.find?_some hf
+        obtain ⟨ho, y, hy⟩ := hk e hem
+        have hyx : termEq y x = true := by simpa [keyTerm, hy] using hpred
+        have hee : e = e0 := hu e hem e0 he0 y x hy hx0 hyx
+        subst hee
+        rw [hx0] at hy; cases hy
+        have bt := asSimple_spec ho hx0
+        have e1 := bt.fresh.ext
+        have hk' : ∀ e' ∈ ks, AllOwned e'.1.refs ∧ ∃ x, readTerm? (asSimple h e.1).1 e'.1 = some x :=
+          fun e' he' => ⟨(hk e' he').1, by obtain ⟨z, hz⟩ := (hk e' he').2; exact ⟨z, readTerm?_ext e1 hz⟩⟩
+        have back : ∀ e' ∈ ks, ∀ z, readTerm? (asSimple h e.1).1 e'.1 = some z → readTerm? h e'.1 = some z := by
+          intro e' he' z hz
+          obtain ⟨z', hz'⟩ := (hk e' he').2
+          have := readTerm?_ext e1 hz'
+          rw [hz] at this; cases this; exact hz'
+        have hu' : ∀ e1' ∈ ks, ∀ e2' ∈ ks, ∀ x y, readTerm? (asSimple h e.1).1 e1'.1 = some x →
+            readTerm? (asSimple h e.1).1 e2'.1 = some y → termEq x y = true → e1' = e2' :=
+          fun a ha b hb x y hx hy => hu a ha b hb x y (back a ha x hx) (back b hb y hy)
+        have hp' : Pointwise (fun e' t' => e' ∈ ks ∧ ∃ x, readTerm? (asSimple h e.1).1 e'.1 = some x ∧
+            readTerm? (asSimple h e.1).1 t' = some x) ksub ts := by
+          refine ⟨by have := hp.1; simpa using this, fun m a b ha hb => ?_⟩
+          obtain ⟨h1, z, h2, h3⟩ := hp.2 (m + 1) a b (by simpa using ha) (by simpa using hb)
+          exact ⟨h1, z, readTerm?_ext e1 h2, readTerm?_ext e1 h3⟩
+        have rest := ih hk' hu' hp'
+        simp only [hf] at full ⊢
+        have e2 : Ext (asSimple h e.1).1 (rebuildI2t ks (asSimple h e.1).1 ts).1 :=
+          (rebuildI2t_spec hk' (fun t' ht' => by
+            obtain ⟨e', he', z, h1, h2⟩ := hs t' (List.mem_cons_of_mem _ ht')
+            exact ⟨e', he', z, readTerm?_ext e1 h1, readTerm?_ext e1 h2⟩)).2.fresh.ext
+        exact Pointwise.cons ⟨(asSimple_paired _ ho).1, (asSimple_paired _ ho).2, x,
+          readTerm?_ext (e1.trans e2) hx0, readTerm?_ext e2 bt.content⟩ rest
+
 /-- the manual `Clone` of an index the invariant holds for: it does not panic, touches no cell of
 the old heap, is no UB; the clone satisfies the invariant, owns only fresh buffers, and reads —
 entry by entry, in the heap where both exist — `Term::eq`-equal to the original -/
@@ -372,7 +559,25 @@ theorem cloneIndex_manual_spec {h : Heap} {ix : TIndex} (inv : IxInv h ix) :
   refine ⟨_, ⟨(cloneKeys h ix.t2i).2, (rebuildI2t (cloneKeys h ix.t2i).2 (cloneKeys h ix.t2i).1 ix.i2t).2.1⟩, ?_,
     e1.trans rb.fresh.ext, by rw [rb.ub, kc.ub], ?_, ?_, rb.same, ?_⟩
   · simp only [cloneIndex, ok, if_true]
-  · refine ⟨kc.owned, ?_, fr.nodup, fun a ha => fr.live_mem ha, ?_, rb.sync⟩
+  · -- position by position: new key `j` has old key `j`'s index and content
+    have kp := cloneKeys_pos inv.keysOwned inv.keysRead
+    have hsnd : (cloneKeys h ix.t2i).2.map (·.2) = ix.t2i.map (·.2) := by
+      clear ok rb fr kc e1 kp inv
+      generalize ix.t2i = ks
+      induction ks generalizing h with
+      | nil => rfl
+      | cons e ks ih => obtain ⟨k, i⟩ := e; simp only [cloneKeys, List.map_cons]; rw [ih]
+    -- the new keys are unique because the old ones are
+    have uk1 : KeysUnique (cloneKeys h ix.t2i).1 (cloneKeys h ix.t2i).2 := by
+      intro i j ei ej x y hi hj hx hy he
+      have hil : i < ix.t2i.length := by rw [← kp.1]; exact (List.getElem?_eq_some_iff.1 hi).1
+      have hjl : j < ix.t2i.length := by rw [← kp.1]; exact (List.getElem?_eq_some_iff.1 hj).1
+      obtain ⟨_, x', h1, h2⟩ := kp.2 i _ _ (List.getElem?_eq_getElem hil) hi
+      obtain ⟨_, y', h3, h4⟩ := kp.2 j _ _ (List.getElem?_eq_getElem hjl) hj
+      rw [hx] at h2; cases h2
+      rw [hy] at h4; cases h4
+      exact inv.uniq i j _ _ x y (List.getElem?_eq_getElem hil) (List.getElem?_eq_getElem hjl) h1 h3 he
+    refine ⟨kc.owned, ?_, fr.nodup, fun a ha => fr.live_mem ha, ?_, rb.sync, ?_, ?_, ?_⟩
     · intro t' ht' r hr
       rcases rb.inKeys t' ht' r hr with h1 | h1
       · exact Or.inl h1
@@ -380,6 +585,24 @@ theorem cloneIndex_manual_spec {h : Heap} {ix : TIndex} (inv : IxInv h ix) :
     · intro e' he'
       obtain ⟨x, hx⟩ := kc.bwd e' he'
       exact ⟨x, readTerm?_ext rb.fresh.ext hx⟩
+    · -- every lookup of the rebuild finds the key at the entry's own position
+      refine rebuildI2t_pos (fun e' he' => ⟨kc.owned e' he', kc.bwd e' he'⟩) ?_ ?_
+      · intro a ha b hb x y hx hy he
+        obtain ⟨i, hi, rfl⟩ := List.getElem_of_mem ha
+        obtain ⟨j, hj, rfl⟩ := List.getElem_of_mem hb
+        have := uk1 i j _ _ x y (List.getElem?_eq_getElem hi) (List.getElem?_eq_getElem hj) hx hy he
+        subst this; rfl
+      · refine ⟨by rw [inv.pair.1, kp.1], fun m a b ha hb => ?_⟩
+        have hml : m < ix.t2i.length := by rw [← kp.1]; exact (List.getElem?_eq_some_iff.1 ha).1
+        obtain ⟨_, x, h1, h2⟩ := kp.2 m _ _ (List.getElem?_eq_getElem hml) ha
+        obtain ⟨_, _, x2, h3, h4⟩ := inv.pair.2 m _ _ (List.getElem?_eq_getElem hml) hb
+        rw [h1] at h3; cases h3
+        exact ⟨List.mem_of_getElem? ha, x, h2, readTerm?_ext e1 h4⟩
+    · refine uk1.of_reads (fun e' he' => ?_)
+      obtain ⟨x, hx⟩ := kc.bwd e' he'
+      rw [hx]; exact readTerm?_ext rb.fresh.ext hx
+    · show (cloneKeys h ix.t2i).2.map (·.2) = List.range (rebuildI2t (cloneKeys h ix.t2i).2 (cloneKeys h ix.t2i).1 ix.i2t).2.1.length
+      rw [hsnd, inv.keys, rb.same.1]
   · intro a ha
     exact (fr.mem.1 ha).1
   · clear ok rb fr kc e1 inv
